@@ -34,6 +34,7 @@ template <class A, class B> struct Caps<vt::X2<A, B>> { static constexpr int v =
 template <class E, size_t N, class S> struct Caps<vt::LBC<E, N, S>> { static constexpr int v = Caps<E>::v; };
 template <class E, size_t N, class S> struct Caps<vt::LBA<E, N, S>> { static constexpr int v = Caps<E>::v; };
 template <class E, size_t N, class S> struct Caps<vt::LBM<E, N, S>> { static constexpr int v = Caps<E>::v; };
+template <class E> struct Caps<vt::UB<E>> { static constexpr int v = Caps<E>::v; };
 template <class A> struct Caps<vt::W1<A>> { static constexpr int v = Caps<A>::v; };
 template <class E, size_t N, class S> struct Caps<vt::WLB<E, N, S>> { static constexpr int v = Caps<E>::v; };
 template <class A> struct Caps<vt::T1<A>> { static constexpr int v = Caps<A>::v | CapSkip; };
